@@ -196,29 +196,90 @@ func c05ExpiryHelpers(c *eng.Ctx) {
 
 // c05AppliedBefore: starting on the nil-error edges of every CalculateTTL
 // call of f, every path to a sink first stores CalculateTTL's TTL through an
-// address matching storePat.
-func c05AppliedBefore(c *eng.Ctx, f *ssa.Function, storePat, storeDesc, sinkDesc string, sinks []ssa.Instruction) {
-	calcs := c05Calls(f, `framework\.CalculateTTL$`)
+// address matching storePat. When the CalculateTTL call is not in f but in the
+// one function of the package f calls directly (the block extracted into a
+// helper), the rule is evaluated there — every successful return of the helper
+// after CalculateTTL succeeded passes the store into field `field` (selected
+// by field identity) — together with the linkage in f: the sinks are reached
+// only across the helper's success.
+func c05AppliedBefore(c *eng.Ctx, f *ssa.Function, storePat string, field *types.Var, storeDesc, sinkDesc string, sinks []ssa.Instruction) {
+	const calcPat = `framework\.CalculateTTL$`
+	host, via, _ := c05TailHost(f, func(g *ssa.Function) bool { return len(c05Calls(g, calcPat)) > 0 })
+	if host == nil || host == f || field == nil {
+		host, via = f, nil
+	}
+	calcs := c05Calls(host, calcPat)
 	if !c.Floor(f, "CalculateTTL call", len(calcs), 1) || !c.Floor(f, sinkDesc, len(sinks), 1) {
 		return
 	}
 	var applied []ssa.Instruction
-	for _, st := range eng.Stores(f, storePat) {
-		if ok, _, _ := c18OriginsMatch(st.Val, nil, `^call:framework\.CalculateTTL#0$`); ok {
-			applied = append(applied, st)
+	if host == f {
+		for _, st := range eng.Stores(f, storePat) {
+			if ok, _, _ := c18OriginsMatch(st.Val, nil, `^call:framework\.CalculateTTL#0$`); ok {
+				applied = append(applied, st)
+			}
+		}
+	} else {
+		for _, in := range eng.Instrs(host, func(in ssa.Instruction) bool { _, ok := in.(*ssa.Store); return ok }) {
+			st := in.(*ssa.Store)
+			fa, ok := st.Addr.(*ssa.FieldAddr)
+			if !ok {
+				continue
+			}
+			if g := eng.FieldVar(fa); g == nil || (g != field && g.Origin() != field) {
+				continue
+			}
+			if ok, _, _ := c18OriginsMatch(st.Val, nil, `^call:framework\.CalculateTTL#0$`); ok {
+				applied = append(applied, st)
+			}
 		}
 	}
 	site := "after{CalculateTTL} " + storeDesc + " before " + sinkDesc
+	targets := sinks
+	if host != f {
+		// inside the helper the "sinks" are its successful returns
+		targets = nil
+		if idx, ok := c05TrailingErr(host); ok {
+			targets = eng.SuccessReturns(host, idx)
+		} else {
+			for _, r := range eng.Returns(host) {
+				if r.Block().Comment != "recover" {
+					targets = append(targets, r)
+				}
+			}
+		}
+	}
 	for _, ct := range calcs {
 		ok := c05OKEdges(ct)
 		if len(ok) == 0 {
 			c.Undecided(f, site, ct.Pos(), "no nil-error edge found for the CalculateTTL call")
 			return
 		}
-		if h := eng.Reach(eng.Query{Fn: f, StartEdges: ok, Barriers: applied, Target: eng.IsTarget(sinks)}); h != nil {
+		if h := eng.Reach(eng.Query{Fn: host, StartEdges: ok, Barriers: applied, Target: eng.IsTarget(targets)}); h != nil {
 			c.Violation(f, site, h.Instr.Pos(), sinkDesc+" is reachable after CalculateTTL succeeded without first writing its TTL ("+storeDesc+"): the lifetime that is stored / tracked is not the capped one", h.Witness)
 			return
 		}
+	}
+	if host != f {
+		hn := eng.FuncName(host)
+		_, hasErr := c05TrailingErr(host)
+		okEdges := eng.CallOKEdges(via)
+		if h := eng.Reach(eng.Query{Fn: f, Barriers: []ssa.Instruction{via}, Target: eng.IsTarget(sinks)}); h != nil {
+			c.Violation(f, site, h.Instr.Pos(), sinkDesc+" is reachable without passing "+hn+", which computes and writes the capped TTL", h.Witness)
+			return
+		}
+		if hasErr {
+			if len(okEdges) == 0 {
+				c.Violation(f, site, via.Pos(), "the error of "+hn+", which computes and writes the capped TTL, is not tested before "+sinkDesc, nil)
+				return
+			}
+			if h := eng.Reach(eng.Query{Fn: f, StartAfter: via, Blocked: okEdges, Target: eng.IsTarget(sinks)}); h != nil {
+				c.Violation(f, site, h.Instr.Pos(), sinkDesc+" is reachable after "+hn+" failed", h.Witness)
+				return
+			}
+		}
+		c.OK(f, site, via.Pos(), "every successful return of "+hn+" after CalculateTTL succeeded passes "+storeDesc+", and "+sinkDesc+" is reached only across its success")
+		return
 	}
 	c.OK(f, site, calcs[0].Pos(), "every path from CalculateTTL's success edge to "+sinkDesc+" passes "+storeDesc)
 }
@@ -227,11 +288,11 @@ func c05AppliedBefore(c *eng.Ctx, f *ssa.Function, storePat, storeDesc, sinkDesc
 func c05IssueApplied(c *eng.Ctx) {
 	if f := c.Fn("vault.(*Core).handleRequest"); f != nil {
 		c.Clause("R3", "C05.9")
-		c05AppliedBefore(c, f, `\.Secret\.LeaseOptions\.TTL$`, "resp.Secret.TTL = ttl", "ExpirationManager.Register", instrsOf(c05Calls(f, `vault\.\(\*ExpirationManager\)\.Register$`)))
+		c05AppliedBefore(c, f, `\.Secret\.LeaseOptions\.TTL$`, c.P.Field("logical.LeaseOptions.TTL"), "resp.Secret.TTL = ttl", "ExpirationManager.Register", instrsOf(c05Calls(f, `vault\.\(\*ExpirationManager\)\.Register$`)))
 	}
 	if f := c.Fn("vault.(*TokenStore).handleCreateCommon"); f != nil {
 		c.Clause("R3", "C05.9")
-		c05AppliedBefore(c, f, `^&te\.TTL$`, "te.TTL = ttl", "TokenStore.create", instrsOf(c05Calls(f, `vault\.\(\*TokenStore\)\.create$`)))
+		c05AppliedBefore(c, f, `^&te\.TTL$`, c.P.Field("logical.TokenEntry.TTL"), "te.TTL = ttl", "TokenStore.create", instrsOf(c05Calls(f, `vault\.\(\*TokenStore\)\.create$`)))
 	}
 	if f := c.Fn("vault.(*Core).LoginCreateToken"); f != nil {
 		c.Clause("R5", "C05.9")
@@ -915,7 +976,7 @@ func c05ForgetAfterDelete(c *eng.Ctx) {
 			}
 		}
 	}
-	c.CallerTable("untracking of a lease (removeFromPending, Delete/Clear on pending / nonexpiring / irrevocable)", sites, allowed, 8)
+	c.CallerTable("untracking of a lease (removeFromPending, Delete/Clear on pending / nonexpiring / irrevocable)", sites, c18WithHelpers(c, sites, allowed), 8)
 }
 
 // ---------- C05.15 a created token is bounded by the MERGED explicit maximum
@@ -939,6 +1000,7 @@ func c05RootBoundByMergedMax(c *eng.Ctx) {
 		return
 	}
 	const mergePat = `^vault\.\(\*TokenStore\)\.parseAndMergeTTLPeriod$`
+	const calcPat = `^framework\.CalculateTTL$`
 	const mergedMax = `^call:vault\.\(\*TokenStore\)\.parseAndMergeTTLPeriod#0$`
 	const mergedPeriod = `^call:vault\.\(\*TokenStore\)\.parseAndMergeTTLPeriod#1$`
 	ttlField := c.P.Field("logical.TokenEntry.TTL")
@@ -959,32 +1021,54 @@ func c05RootBoundByMergedMax(c *eng.Ctx) {
 		return
 	}
 	merge := merges[0].At.(ssa.CallInstruction)
+	m0 := eng.ResultValue(merge, 0)
 	// the entry that is created
 	entry, _ := c18Val(creates[0].Effs[0].Call.Args[2], creates[0].Effs[0].Fr)
+
+	// where the TTL is settled: handleCreateCommon itself, or the one function of the
+	// package it calls directly that carries the CalculateTTL call (the block extracted
+	// into a helper, which is handed the entry and the merged values)
+	type scopeFn struct {
+		fn *ssa.Function
+		fr *nfFrame
+	}
+	scope := []scopeFn{{f, nil}}
+	host, via, _ := c05TailHost(f, func(g *ssa.Function) bool { return len(c18Calls(g, calcPat)) > 0 })
+	if host != nil && host != f {
+		scope = append(scope, scopeFn{host, &nfFrame{call: via}})
+	}
+
 	sameField := func(a *ssa.FieldAddr, fv *types.Var) bool {
 		g := eng.FieldVar(a)
 		return g != nil && (g == fv || g.Origin() == fv)
 	}
-	isEntryTTL := func(addr ssa.Value) bool {
+	isEntryTTL := func(addr ssa.Value, fr *nfFrame) bool {
 		fa, ok := addr.(*ssa.FieldAddr)
 		if !ok || !sameField(fa, ttlField) {
 			return false
 		}
-		base, _ := c18Val(fa.X, nil)
+		base, _ := c18Val(fa.X, fr)
 		return base == entry
 	}
-	// (a) what handleCreateCommon writes into the entry's TTL
-	var ttlStores []ssa.Instruction
-	for _, in := range eng.Instrs(f, func(in ssa.Instruction) bool { st, ok := in.(*ssa.Store); return ok && isEntryTTL(st.Addr) }) {
-		st := in.(*ssa.Store)
-		ttlStores = append(ttlStores, st)
-		c18Prov(c, f, "TTL given to the created token", st, st.Val, nil, `^call:framework\.CalculateTTL#0$`, mergedMax)
+	// (a) what is written into the entry's TTL
+	type ttlStore struct {
+		st *ssa.Store
+		sc scopeFn
+	}
+	var ttlStores []ttlStore
+	for _, sc := range scope {
+		for _, in := range eng.Instrs(sc.fn, func(in ssa.Instruction) bool { st, ok := in.(*ssa.Store); return ok && isEntryTTL(st.Addr, sc.fr) }) {
+			st := in.(*ssa.Store)
+			ttlStores = append(ttlStores, ttlStore{st, sc})
+			c18Prov(c, f, "TTL given to the created token", st, st.Val, sc.fr, `^call:framework\.CalculateTTL#0$`, mergedMax)
+		}
 	}
 	c.Floor(f, "stores to the TTL of the entry that is created (CalculateTTL's result, the merged explicit maximum)", len(ttlStores), 2)
 	// (b) what CalculateTTL is bounded by
-	calcs := c18Calls(f, `^framework\.CalculateTTL$`)
-	if c.Floor(f, "CalculateTTL call", len(calcs), 1) {
-		for _, ct := range calcs {
+	nCalc := 0
+	for _, sc := range scope {
+		for _, ct := range c18CallsIn(sc.fn, sc.fr, calcPat) {
+			nCalc++
 			for _, e := range ct.Effs {
 				if len(e.Call.Args) < 7 {
 					continue
@@ -994,6 +1078,7 @@ func c05RootBoundByMergedMax(c *eng.Ctx) {
 			}
 		}
 	}
+	c.Floor(f, "CalculateTTL call", nCalc, 1)
 	// (c) what the Auth of the new token advertises (renewals are capped by it)
 	nAuth := 0
 	for _, in := range eng.Instrs(f, func(in ssa.Instruction) bool { _, ok := in.(*ssa.Store); return ok }) {
@@ -1019,69 +1104,107 @@ func c05RootBoundByMergedMax(c *eng.Ctx) {
 	c.Clause("R2", "C05.15")
 	site := "a token with TTL 0 is created only when the merged explicit maximum is 0"
 	asm := map[string]bool{}
-	nZero, nMerged := 0, 0
-	m0 := eng.ResultValue(merge, 0)
-	for _, b := range f.Blocks {
-		ifi := eng.IfOf(b)
-		if ifi == nil {
-			continue
-		}
-		nc := eng.Normalize(ifi.Cond)
-		bo, ok := nc.Val.(*ssa.BinOp)
-		if !ok {
-			continue
-		}
-		isZeroConst := func(v ssa.Value) bool {
-			k, ok := v.(*ssa.Const)
-			return ok && k.Value != nil && k.Value.Kind() == constant.Int && constant.Sign(k.Value) == 0
-		}
-		isTTLLoad := func(v ssa.Value) bool {
-			ld, ok := v.(*ssa.UnOp)
-			return ok && ld.Op == token.MUL && isEntryTTL(ld.X)
-		}
-		for _, pair := range [][2]ssa.Value{{bo.X, bo.Y}, {bo.Y, bo.X}} {
-			x, k := pair[0], pair[1]
-			if !isZeroConst(k) {
+	nZero := 0
+	isZeroConst := func(v ssa.Value) bool {
+		k, ok := v.(*ssa.Const)
+		return ok && k.Value != nil && k.Value.Kind() == constant.Int && constant.Sign(k.Value) == 0
+	}
+	for _, sc := range scope {
+		for _, b := range sc.fn.Blocks {
+			ifi := eng.IfOf(b)
+			if ifi == nil {
 				continue
 			}
-			subjectTTL, subjectMerged := isTTLLoad(x), m0 != nil && x == m0
-			if !subjectTTL && !subjectMerged {
+			nc := eng.Normalize(ifi.Cond)
+			bo, ok := nc.Val.(*ssa.BinOp)
+			if !ok {
 				continue
 			}
-			// value of the normalised condition when the subject is 0 (TTL) / positive (merged maximum)
-			var val bool
-			switch {
-			case strings.HasSuffix(nc.Base, " == 0"):
-				val = subjectTTL // x == 0
-			case strings.HasPrefix(nc.Base, "0 < "):
-				val = subjectMerged // 0 < x
-			case strings.HasSuffix(nc.Base, " < 0"):
-				val = false // never, for a duration that is 0 or positive
-			default:
-				continue
-			}
-			asm["^"+regexp.QuoteMeta(nc.Base)+"$"] = val
-			if subjectTTL {
-				nZero++
-			} else {
-				nMerged++
+			for _, pair := range [][2]ssa.Value{{bo.X, bo.Y}, {bo.Y, bo.X}} {
+				x, k := pair[0], pair[1]
+				if !isZeroConst(k) {
+					continue
+				}
+				subjectTTL := false
+				if ld, ok := x.(*ssa.UnOp); ok && ld.Op == token.MUL && isEntryTTL(ld.X, sc.fr) {
+					subjectTTL = true
+				}
+				subjectMerged := false
+				if !subjectTTL && m0 != nil {
+					rx, _ := c18Val(x, sc.fr)
+					subjectMerged = rx == m0
+				}
+				if !subjectTTL && !subjectMerged {
+					continue
+				}
+				// value of the normalised condition when the subject is 0 (TTL) / positive (merged maximum)
+				var val bool
+				switch {
+				case strings.HasSuffix(nc.Base, " == 0"):
+					val = subjectTTL // x == 0
+				case strings.HasPrefix(nc.Base, "0 < "):
+					val = subjectMerged // 0 < x
+				case strings.HasSuffix(nc.Base, " < 0"):
+					val = false // never, for a duration that is 0 or positive
+				default:
+					continue
+				}
+				asm["^"+regexp.QuoteMeta(nc.Base)+"$"] = val
+				if subjectTTL {
+					nZero++
+				}
 			}
 		}
 	}
 	// (no test of the merged maximum at all leaves every such path open: reported by the reachability below)
-	_ = nMerged
 	if !c.Floor(f, "tests of the created entry's TTL against zero", nZero, 2) {
 		return
 	}
-	var bounded []ssa.Instruction
-	for _, st := range ttlStores {
-		if ok, _, _ := c18OriginsMatch(st.(*ssa.Store).Val, nil, `^call:framework\.CalculateTTL#0$`, mergedMax); ok {
-			bounded = append(bounded, st)
+	bounded := map[*ssa.Function][]ssa.Instruction{}
+	for _, ts := range ttlStores {
+		if ok, _, _ := c18OriginsMatch(ts.st.Val, ts.sc.fr, `^call:framework\.CalculateTTL#0$`, mergedMax); ok {
+			bounded[ts.sc.fn] = append(bounded[ts.sc.fn], ts.st)
 		}
 	}
-	if h := eng.Reach(eng.Query{Fn: f, StartAfter: merge, Assume: asm, Barriers: bounded, Target: eng.IsTarget(c18Ats(creates))}); h != nil {
-		c.Violation(f, site, h.Instr.Pos(), "with a positive merged explicit maximum (the lesser of the call's and the role's) a token whose TTL is 0 can reach TokenStore.create without the merged maximum (or CalculateTTL's result) having been written to its TTL: it is registered as non-expiring", h.Witness)
+	open := "with a positive merged explicit maximum (the lesser of the call's and the role's) a token whose TTL is 0 can reach TokenStore.create without the merged maximum (or CalculateTTL's result) having been written to its TTL: it is registered as non-expiring"
+	if len(scope) == 1 {
+		if h := eng.Reach(eng.Query{Fn: f, StartAfter: merge, Assume: asm, Barriers: bounded[f], Target: eng.IsTarget(c18Ats(creates))}); h != nil {
+			c.Violation(f, site, h.Instr.Pos(), open, h.Witness)
+		} else {
+			c.OK(f, site, creates[0].At.Pos(), "with merged maximum > 0 and TTL == 0 every path to TokenStore.create writes CalculateTTL's result or the merged maximum into the TTL")
+		}
+		return
+	}
+	// the TTL is settled in a helper: inside it no successful return is reached without the
+	// write; in handleCreateCommon TokenStore.create is reached only across the helper's success
+	hn := eng.FuncName(host)
+	var hsucc []ssa.Instruction
+	if idx, ok := c05TrailingErr(host); ok {
+		hsucc = eng.SuccessReturns(host, idx)
 	} else {
-		c.OK(f, site, creates[0].At.Pos(), "with merged maximum > 0 and TTL == 0 every path to TokenStore.create writes CalculateTTL's result or the merged maximum into the TTL")
+		for _, r := range eng.Returns(host) {
+			if r.Block().Comment != "recover" {
+				hsucc = append(hsucc, r)
+			}
+		}
+	}
+	okEdges := eng.CallOKEdges(via)
+	_, hasErr := c05TrailingErr(host)
+	switch {
+	case len(hsucc) == 0:
+		c.Undecided(f, site, via.Pos(), hn+" (which settles the TTL) has no successful return: the rule cannot be evaluated")
+	case eng.Reach(eng.Query{Fn: host, Assume: asm, Barriers: bounded[host], Target: eng.IsTarget(hsucc)}) != nil:
+		h := eng.Reach(eng.Query{Fn: host, Assume: asm, Barriers: bounded[host], Target: eng.IsTarget(hsucc)})
+		c.Violation(f, site, h.Instr.Pos(), open+" ("+hn+" can return successfully without the write)", h.Witness)
+	case eng.Reach(eng.Query{Fn: f, StartAfter: merge, Barriers: []ssa.Instruction{via}, Target: eng.IsTarget(c18Ats(creates))}) != nil:
+		h := eng.Reach(eng.Query{Fn: f, StartAfter: merge, Barriers: []ssa.Instruction{via}, Target: eng.IsTarget(c18Ats(creates))})
+		c.Violation(f, site, h.Instr.Pos(), "TokenStore.create is reachable without passing "+hn+", which settles the TTL", h.Witness)
+	case hasErr && len(okEdges) == 0:
+		c.Violation(f, site, via.Pos(), "the error of "+hn+", which settles the TTL, is not tested before the token is created", nil)
+	case hasErr && eng.Reach(eng.Query{Fn: f, StartAfter: via, Blocked: okEdges, Target: eng.IsTarget(c18Ats(creates))}) != nil:
+		h := eng.Reach(eng.Query{Fn: f, StartAfter: via, Blocked: okEdges, Target: eng.IsTarget(c18Ats(creates))})
+		c.Violation(f, site, h.Instr.Pos(), "TokenStore.create is reachable after "+hn+" failed to settle the TTL", h.Witness)
+	default:
+		c.OK(f, site, creates[0].At.Pos(), "with merged maximum > 0 and TTL == 0 every successful return of "+hn+" writes CalculateTTL's result or the merged maximum into the TTL, and TokenStore.create is reached only across its success")
 	}
 }
